@@ -46,17 +46,17 @@ type caseJ struct {
 	CacheEnc string     `json:"cache_enc"`
 	Gateway  bool       `json:"gateway"`
 	// the gateway MAC was obtained from the real getGatewayMAC (loopback: no default route, so none is due)
-	GatewayLookup bool   `json:"gateway_lookup,omitempty"`
-	LookupMAC     string `json:"lookup_mac,omitempty"`
-	Ranges   [][2]int   `json:"ranges"`
-	Draws    [][2]int64 `json:"draws"`
-	Seed     int64      `json:"seed"`
-	Err      int        `json:"err"`
-	ErrMsg   string     `json:"err_msg"`
-	Out      string     `json:"out"`
-	In       string     `json:"in,omitempty"`
-	Complete bool       `json:"complete"`
-	Stuck    bool       `json:"stuck"`
+	GatewayLookup bool       `json:"gateway_lookup,omitempty"`
+	LookupMAC     string     `json:"lookup_mac,omitempty"`
+	Ranges        [][2]int   `json:"ranges"`
+	Draws         [][2]int64 `json:"draws"`
+	Seed          int64      `json:"seed"`
+	Err           int        `json:"err"`
+	ErrMsg        string     `json:"err_msg"`
+	Out           string     `json:"out"`
+	In            string     `json:"in,omitempty"`
+	Complete      bool       `json:"complete"`
+	Stuck         bool       `json:"stuck"`
 }
 
 var tmpDir string
